@@ -30,6 +30,7 @@ type Case struct {
 	Dir    int    `json:"dir"`
 	Nbits  int    `json:"nbits"`
 	Dpat   int    `json:"dpat"`
+	Data   []int  `json:"data,omitempty"` // exact input (re-run of an observed call); overrides dpat
 }
 
 // Ev is one observed call (C06 / C07 schema; every event carries every key).
@@ -116,6 +117,9 @@ func runCase(rng *rand.Rand, c Case) Ev {
 			// integrity: the message is exactly nbits bits, pad bits of the last octet are zero (domain of the standard)
 			data[nbytes-1] &= 0xff << uint(8-c.Nbits%8)
 		}
+	}
+	if c.Data != nil {
+		data = ev.Bytes(c.Data)
 	}
 	e := Ev{Op: c.Op, Alg: c.Alg, Key: key, Cnt: cnt, Bearer: c.Bearer, Dir: c.Dir, Data: ev.Ints(data), Nbits: c.Nbits, Out: []int{}}
 	in := append([]byte{}, data...)
